@@ -339,6 +339,7 @@ func ruleC11(w *World, r *Report) {
 	r.withRule("R11.7", func() { ruleC15TunnelRelease(w, r, "C11") })
 	ruleC11ConnectOnce(w, r)
 	ruleC11SplitSections(w, r)
+	ruleC11Shared2(w, r)
 }
 
 func shortRoot(s string) string {
@@ -709,5 +710,51 @@ func ruleC11SplitSections(w *World, r *Report) {
 	}
 	if len(ss) == 0 {
 		r.ok("R11.9", "pfcpiface", "no check-then-act across two critical sections of one mutex", "-", fmt.Sprintf("%d guarded writes in functions that lock a mutex more than once examined", examined))
+	}
+}
+
+// ruleC11Shared2 (R11.10–R11.12): three more ways one association's request reaches into another's state.
+func ruleC11Shared2(w *World, r *Report) {
+	const P = "C11"
+	// R11.10: what a session gives back to the node-wide pools (UE address, TEIDs) goes back only after the
+	// datapath delete of its rules was accepted — otherwise another association's new session gets the
+	// address while the old rules are still (or, after the delayed delete, no longer) installed under it
+	r.withRule("R11.10", func() {
+		ruleC06Release(w, r)
+		ruleC07Never(w, r)
+	})
+	// R11.11: no request takes a mutex again that its own call chain already holds (a request that deadlocks
+	// while holding UP4.stateMu blocks every association)
+	{
+		funcs := map[*ssa.Function]bool{}
+		for _, f := range w.Funcs {
+			if strings.HasPrefix(w.FuncName(f), "pfcpiface.") && !strings.HasPrefix(w.FuncName(f), "pfcpiface/") {
+				funcs[f] = true
+			}
+		}
+		rl, sites := w.reentrantLocks(funcs)
+		for _, x := range rl {
+			r.bad("R11.11", w.FuncName(x.fn), "no re-acquisition of "+x.mu.Name()+" while it is held", w.Pos(posNear(x.ins)), "the mutex "+x.mu.Name()+" is held here and acquired again "+x.via+": the request blocks for ever while holding a lock every other association needs")
+		}
+		if len(rl) == 0 {
+			r.ok("R11.11", "pfcpiface", "no mutex is re-acquired while held", "-", fmt.Sprintf("%d call sites under a non-empty lockset examined", sites))
+		}
+		r.floor("R11.11 call sites under a lock", sites, 30)
+	}
+	// R11.12: the P4Runtime stream has one writer. PacketOuts (End Markers) are written by the
+	// endMarkerSendLoop goroutine only; a handler that writes them itself does so on its association's reader
+	// goroutine, concurrently with the other associations' — gRPC forbids concurrent Send on one stream.
+	{
+		send := w.Fn(P, "pfcpiface.(*P4rtClient).SendPacketOut")
+		n := 0
+		for _, e := range w.CG().callersOf(send) {
+			cn := w.FuncName(e.Caller)
+			if strings.HasPrefix(cn, "test/") {
+				continue
+			}
+			n++
+			r.check(strings.HasSuffix(cn, ".endMarkerSendLoop"), "R11.12", cn, "PacketOuts are written by the single sender goroutine", w.Pos(e.Site.Pos()), "endMarkerSendLoop", cn+" writes PacketOuts to the P4Runtime stream itself: it runs on each association's reader goroutine, so two associations handing over at the same time call stream.Send concurrently")
+		}
+		r.floor("R11.12 callers of SendPacketOut", n, 1)
 	}
 }
